@@ -21,6 +21,7 @@ type asPlan struct {
 	mcThor   []string // additional MC configurations in the thorough tier
 	gen      []string // generator configurations (simulated behaviours)
 	ops      [][2]string // operations the random scenarios draw from
+	vias     []string    // reference provenances the random scenarios draw from (nil: ActorOf references only)
 	rule     string
 }
 
@@ -51,7 +52,7 @@ func asTags(ev []map[string]any) string {
 	return strings.Join(ts, "+")
 }
 
-func asRandomScenario(rng *rand.Rand, ops [][2]string) (*asScenario, []asStep) {
+func asRandomScenario(rng *rand.Rand, ops [][2]string, vias []string) (*asScenario, []asStep) {
 	shapes := []map[string]string{
 		{"t": "root", "a": "t", "b": "t"},
 		{"t": "root", "a": "t", "b": "t", "c": "a"},
@@ -94,7 +95,11 @@ func asRandomScenario(rng *rand.Rand, ops [][2]string) (*asScenario, []asStep) {
 		if arg == "@" {
 			arg = sc.Names[rng.Intn(len(sc.Names))]
 		}
-		steps = append(steps, asStep{A: "tell", X: x, Op: o[0], Arg: arg})
+		via := ""
+		if vias != nil {
+			via = vias[rng.Intn(len(vias))]
+		}
+		steps = append(steps, asStep{A: "tell", X: x, Op: o[0], Arg: arg, Via: via})
 	}
 	return sc, steps
 }
@@ -166,7 +171,7 @@ func asCheck(c *core.Ctx, plan asPlan) {
 	}
 	var rj []*asBehaviour
 	for i := 0; i < core.Pick(c, 400, 6000); i++ {
-		sc, steps := asRandomScenario(rng, plan.ops)
+		sc, steps := asRandomScenario(rng, plan.ops, plan.vias)
 		rj = append(rj, &asBehaviour{Scen: *sc, Steps: steps})
 	}
 	sem := make(chan struct{}, 12)
@@ -247,7 +252,20 @@ func init() {
 	t3 := []string{"MC_T3_" + asVariant + ".cfg"}
 	g3 := []string{"Gen_T3_" + asVariant + ".cfg"}
 	register("C03", func(c *core.Ctx) {
+		// the mailbox is one of the places where a message can vanish (a lost wake-up leaves it queued for ever):
+		// fine-grained replays of the Mailbox spec on the real mailbox, judged by MailboxMon
+		if dir, err := c.SpecDir("mailbox"); err == nil {
+			v := mbModelVariant
+			traces, _, ok := mbCollectTraces(c, dir, []string{"Gen_Q_" + v + ".cfg", "Gen_W_" + v + ".cfg", "Gen_R_" + v + ".cfg"}, core.Pick(c, 150, 2000), core.Pick(c, 250, 4000))
+			if !ok {
+				return
+			}
+			res := ValidateTraces(c, "mailbox", "MailboxMon", "MailboxMon.cfg", traces, mbDefaults)
+			res.Report(c, "MailboxMon")
+			c.Add("traces_validated_against_impl", int64(res.Validated))
+		}
 		asCheck(c, asPlan{prop: "C03", monitors: []string{"FateMon"}, mc: t3, gen: g3, ops: append(append([][2]string{}, asOpsBasic...), asOpsStash...),
+			vias: []string{"", "", "clone", "parsed", "held", "held"},
 			rule: base + "Judged by FateMon."})
 	})
 	register("C06", func(c *core.Ctx) {
